@@ -218,6 +218,29 @@ def run(ctx):
               "each slice is copied to heap_ptr + write_offset with write_offset starting at size_of::<Header>() and advancing by the slice's length "
               "exactly once per iteration, source = the slice's own (ptr, len), slices taken in order from the argument",
               A.site(body_copy[0][0]) if body_copy else A.site(), how="loop-carried offset: init size_of Header, update offset + len(item) after the copy", why=why5)
+    # ---- N1b: what set_size does with that number, for every header type (new_boxed hands the size over through this hook)
+    SIZE_FIELD_OFF = {"multiboot2::tag::TagHeader": 4, "multiboot2_header::tags::HeaderTagHeader": 4,
+                      "multiboot2::boot_information::BootInformationHeader": 0, "multiboot2_header::header::Multiboot2BasicHeader": 8}
+    n_ss = 0
+    for h in c14.header_types(F):
+        hty = h["self"]
+        off = SIZE_FIELD_OFF.get(hty)
+        ss = F.find(impl_trait="multiboot2_common::Header", impl_self=hty, name="set_size")
+        lab = "set_size<%s>" % hty.split("::")[-1]
+        if off is None or len(ss) != 1:
+            ctx.fail("N1", lab, "Header::set_size of %s exists and its size field is known" % hty, h.get("span", ""), "%d instances, size field offset %s" % (len(ss), off))
+            continue
+        n_ss += 1
+        S_ = an.of(F, ss[0])
+        lay = F.adts.get(hty)
+        fname_ = [f["name"] for f in lay["fields"] if f["off"] == off and f["size"] == 4]
+        ws = [(name, N(v)) for (_bb, _si, name, v) in an.writes_through(S_, 1)]
+        mine = [w for w in ws if fname_ and w[0] == fname_[0]]
+        want = ("cast", "IntToInt", arg(2), "u32")
+        ok_ss = len(mine) == 1 and mine[0][1] == want and all(S_.body.dominates(bb, r) for (bb, _si, name, v) in an.writes_through(S_, 1) if fname_ and name == fname_[0] for r in S_.body.return_blocks)
+        ctx.check(ok_ss, "N1", lab, "%s::set_size(n) stores exactly n (as u32) in the size field at offset %d - not a rounded or adjusted value" % (hty.split("::")[-1], off),
+                  S_.site(), how="one store of `n as u32` to `%s`" % (fname_[0] if fname_ else "?"), why="stores: %s" % [(w[0], G.show(w[1])[:80]) for w in ws])
+    ctx.floor("N1", "header types with a checked set_size", n_ss, 4)
     # ---- N6, N7
     fr = callv(A, ["alloc::boxed::Box::<T>::from_raw"])
     g6 = False
